@@ -434,7 +434,7 @@ struct FlatSetEngine : EngineBase {
   // a heterogeneous key equivalent to a run of several elements (std::set: count = length of the run, find = any element of it)
   template <class C = Cmp>
   typename std::enable_if<CmpTransparent<C>::value>::type hetero_run(const Set &s, const Model &m, int c2, int a) {
-    HalfKey hk{c2};
+    HalfKey hk(c2);
     {
       size_t run = 0;
       { MonScope mm; run = m.count(hk); }
